@@ -312,6 +312,34 @@ func TestVerifC05Shapes(t *testing.T) {
 		}
 	}
 
+	// range literals at the edges of what the range parser reads: degenerate [5:5], exponent
+	// spelling, zero and negative bounds, the full width of a kind, bounds at 2^53
+	for _, rc := range []struct {
+		k          g.Kind
+		rg         g.Range
+		valid, bad []string
+	}{
+		{g.Int8, g.Range{L: "5", R: "5", LI: true, RI: true}, []string{"5"}, []string{"4", "6"}},
+		{g.Int16, g.Range{L: "-1e2", R: "1e2", LI: true, RI: true}, []string{"-100", "100", "0"}, []string{"-101", "101"}},
+		{g.Float64, g.Range{L: "0", R: "1"}, []string{"0.5", "1e-9", "0.999"}, []string{"0", "1", "-0.5"}},
+		{g.Float32, g.Range{L: "-0.5", R: ""}, []string{"0", "-0.25", "1e30"}, []string{"-0.5", "-1"}},
+		{g.Uint8, g.Range{L: "0", R: "255", LI: true, RI: true}, []string{"0", "255"}, []string{"256"}},
+		{g.Uint16, g.Range{L: "", R: "0", RI: true}, []string{"0"}, []string{"1"}},
+		{g.Int64, g.Range{L: "-9007199254740992", R: "9007199254740992", LI: true, RI: true}, []string{"-9007199254740992", "9007199254740992", "0"}, []string{"9007199254740994", "-9007199254740994"}},
+		{g.Int, g.Range{L: "-0", R: "9", LI: true}, []string{"0", "8"}, []string{"-1", "9"}},
+	} {
+		rg := rc.rg
+		for i, xs := range [][]string{rc.valid, rc.bad} {
+			class := []string{"valid", "fault"}[i]
+			for _, x := range xs {
+				what := fmt.Sprintf("%s range=%s value %s", rc.k, &rg, x)
+				p.run(class, c05JSON, c05One("V", "v", g.L(rc.k), g.Opts{Range: &rg}), "json", map[string]any{"v": c05N(x)}, nil, what)
+				p.run(class, c05Form, c05One("V", "v", g.L(rc.k), g.Opts{Range: &rg}), "form", map[string]any{"v": x}, nil, what+" form")
+				m.Count("range-edge-probes", 2)
+			}
+		}
+	}
+
 	p.family = "not-in-options"
 	// options= for every leaf kind: member accepted, non-member rejected (number, string option, form)
 	optsFor := map[g.Kind][3]string{
